@@ -84,6 +84,7 @@ type runner struct {
 	viols []*violation
 	pending []*violation
 	byKey map[string]*violation
+	byHead map[string][]*violation
 	// findings already explained by a violation whose key names options or a backend: head -> violations
 	explained map[string][]*violation
 	shrinkBudget time.Duration
@@ -278,6 +279,26 @@ func (r *runner) finalize() {
 		if !v.Shrunk {
 			v.Key += "|unshrunk"
 		}
+		r.byHead[v.Head] = append(r.byHead[v.Head], v)
+	}
+	for _, v := range r.pending {
+		if v.Key == "" {
+			continue
+		}
+		if !v.Shrunk && v.Known == "" {
+			// the budget ran out before this input was minimal: if a fully minimised input with the same verdict
+			// (and the same backend) is reported anyway, this one adds nothing but an unstable key
+			dup := false
+			for _, w := range r.byHead[v.Head] {
+				if w != v && w.Shrunk && orStr(w.Subject.Backend, "go") == orStr(v.Subject.Backend, "go") {
+					dup = true
+				}
+			}
+			if dup {
+				r.count("violation.unshrunk-attributed")
+				continue
+			}
+		}
 		if old, ok := r.byKey[v.Key]; ok {
 			if old.Known == "" && v.Known != "" {
 				old.Known = v.Known
@@ -356,7 +377,7 @@ func run(repo, dir string, seed uint64, tier string, knownOnly bool, only string
 		c, err := newChecker(filepath.Join(work, "chk"), repo, tg)
 		chkCh <- chkRes{c, err}
 	}()
-	r := &runner{repo: repo, work: work, seed: seed, tier: tier, out: out, byKey: map[string]*violation{}, explained: map[string][]*violation{}}
+	r := &runner{repo: repo, work: work, seed: seed, tier: tier, out: out, byKey: map[string]*violation{}, byHead: map[string][]*violation{}, explained: map[string][]*violation{}}
 	r.shrinkBudget = 70 * time.Second
 	if tier == "thorough" {
 		r.shrinkBudget = 6 * time.Minute
